@@ -40,9 +40,9 @@ type c12Lane struct {
 }
 
 type c12Scen struct {
-	CapS  int       `json:"cap_s"` // configured message_expiry in seconds, 0 = off
+	CapS  int       `json:"cap_s"`            // configured message_expiry in seconds, 0 = off
 	CapMs int       `json:"cap_ms,omitempty"` // overrides cap_s when set: a maximum lifetime that is not a whole number of seconds
-	Redis bool      `json:"redis,omitempty"` // session queues on the redis backend (harness RESP server)
+	Redis bool      `json:"redis,omitempty"`  // session queues on the redis backend (harness RESP server)
 	Lanes []c12Lane `json:"lanes"`
 }
 
